@@ -193,6 +193,7 @@ func filterClosure(e ast.Expr, recv string) (method string, args []string, item 
 func genSelect(repo string) (string, error) {
 	fset := token.NewFileSet()
 	f, err := parser.ParseFile(fset, filepath.Join(repo, "ociregistry/ocifilter/select.go"), nil, 0)
+	normalizeFile(f)
 	if err != nil {
 		return "", err
 	}
